@@ -21,6 +21,8 @@ func clientIndexes(cfg int) []model.ClientIndex {
 		return []model.ClientIndex{{Columns: []model.ColumnKey{{Column: "num"}}}}
 	case 4:
 		return []model.ClientIndex{{Columns: []model.ColumnKey{{Column: "name"}}}, {Columns: []model.ColumnKey{{Column: "num"}, {Column: "tag"}}}}
+	case 5: // two keys of the same map column in one index
+		return []model.ClientIndex{{Columns: []model.ColumnKey{{Column: "conf", Key: "k"}, {Column: "conf", Key: "j"}}}}
 	}
 	return nil
 }
